@@ -1,0 +1,17 @@
+//go:build verif
+
+package milter
+
+import (
+	gomilter "github.com/emersion/go-milter"
+	"github.com/foxcpp/maddy/framework/log"
+	"github.com/foxcpp/maddy/framework/module"
+)
+
+// VerifHandleReplyCode runs the conversion of a milter "reply code" action
+// (state.handleAction) for the verification harness: no milter connection is
+// involved, only the computation of the check result from the action.
+func VerifHandleReplyCode(smtpCode int, text string) module.CheckResult {
+	s := &state{c: &Check{milterUrl: "verif"}, log: log.Logger{Out: log.NopOutput{}}}
+	return s.handleAction(&gomilter.Action{Code: gomilter.ActReplyCode, SMTPCode: smtpCode, SMTPText: text})
+}
